@@ -1093,7 +1093,10 @@ func (x *Exec) runDefers(st *State) {
 			}
 			x.inlineBody(st, d.info, fl.Type, fl.Body, sig, nil, args)
 		} else {
+			savedFrozen := x.frozen
+			x.frozen = d.frozen
 			x.call(st, d.call)
+			x.frozen = savedFrozen
 		}
 		// named results may have been changed by the closure
 		st.results = x.reloadResults(st, saveRes)
@@ -1198,6 +1201,26 @@ func (x *Exec) loggerCall(st *State, e *ast.CallExpr, name string) []Val {
 }
 
 func (x *Exec) scanCallMods(ms *modSet, e *ast.CallExpr) {
+	// ghost statements anchored after this call run right behind it: what their lemmas modify
+	// (ghost state) belongs to the loop's modification set too
+	if x.con != nil && len(x.con.Ghosts) > 0 && !x.scanningGhost {
+		name := calleeName(e)
+		for _, g := range x.con.Ghosts {
+			if g.Anchor == "after" && g.Callee == name {
+				saved := x.info
+				x.info = g.Clause.Info
+				x.scanningGhost = true
+				ast.Inspect(g.Clause.Expr, func(n ast.Node) bool {
+					if ce, ok := n.(*ast.CallExpr); ok {
+						x.scanCallMods(ms, ce)
+					}
+					return true
+				})
+				x.scanningGhost = false
+				x.info = saved
+			}
+		}
+	}
 	if tv, ok := x.info.Types[e.Fun]; ok && tv.IsType() {
 		if isSliceT(tv.Type) {
 			ms.add("ghost.brk", SInt)
